@@ -155,7 +155,11 @@ def run_c14(o, tier, rng, prep):
         for f in range(8):
             for r in range(8):
                 basis.append(gens.fen_of_grid({(f, r): pc}, stm="w"))
-    fens = basis + fens
+    # the largest material imbalance legal play can produce (nine queens and the original pieces against a bare
+    # king): this is where the evaluation comes closest to the range reserved for mates
+    heavy = ["7k/8/8/8/8/QQ1QQ3/Q1QQQQ2/KRRBBNN1 w - - 0 1", "7k/8/8/8/8/QQ1QQ3/Q1QQQQ2/KRRBBNN1 b - - 0 1",
+             "krrbbnn1/q1qqqq2/qq1qq3/8/8/8/8/7K w - - 0 1", "3k4/8/8/8/3QQ3/2QQQQ2/2QQQ3/R2K3R w - - 0 1"]
+    fens = basis + heavy + fens
     cases = []
     for f in fens:
         parts = f.split(" ")
@@ -206,7 +210,7 @@ def geometry_positions(rng, tier):
     ep = gens.ep_geometry(rng, 500 if tier == "quick" else 6000)
     pr = gens.promotion_geometry(rng, 300 if tier == "quick" else 4000)
     cep = gens.castle_with_ep(rng, 300 if tier == "quick" else 4000)
-    legal = gens.filter_legal(cast + ep + pr + cep)
+    legal = gens.filter_legal(cast + ep + pr + cep + gens.extra_rook_positions())
     return [f for f, _, _ in legal]
 
 
@@ -259,6 +263,20 @@ def run_c01(o, tier, rng, prep):
     res = V.run_cases(chain_cases)
     mm, sm = V.compare(res, model_filter=model_moves_only, spec_filter=moves_only)
     report(o, "positions reached through chains of generated successors (game prefixes, corner captures and the replies)", res, mm, sm, nontrivial=moves_nontrivial)
+    # and through the `position ... moves ...` command: what the search chooses from must be the legal moves of the
+    # position the command describes (double steps, castling and captures applied by the text-move applier)
+    pgames = [g for g in games if g.moves][: (60 if tier == "quick" else 1500)]
+    rcases = []
+    for g in pgames:
+        for kk in range(1, len(g.moves) + 1, 1 if tier != "quick" else 2):
+            rcases.append("roots\t" + pos_cmd(g.start, g.moves[:kk]))
+    if tier == "quick":
+        rng.shuffle(rcases)
+        rcases = rcases[:500]
+    rcases += ["roots\t" + c for c in gens.ep_via_moves(gens.ep_geometry(rng, 400 if tier == "quick" else 4000))]
+    rres = V.run_cases(rcases)
+    rmm, rsm = V.compare(rres)
+    report(o, "root moves after position commands (game prefixes through the text-move applier)", rres, rmm, rsm, nontrivial=lambda r: True)
     for name, fens in (("regression corpus", corpus), ("castling/en-passant/promotion geometry", geo), ("positions of random legal games", pos)):
         res = V.run_cases(gen_cases_from_positions(fens))
         # C01 is about the move set: descriptors as sorted multisets (positions and keys are C02 / C05)
@@ -546,6 +564,21 @@ def run_c06(o, tier, rng, prep):
     mm, sm = V.compare(res)
     report(o, "is_check for both colours on attacker/blocker geometry and random placements", res, mm, sm,
            nontrivial=lambda r: "1" in (r.get("S") or "").split(" ")[-1])
+    # the answer is also used right after moves applied by the text-move applier (its king caches): after position
+    # commands that castle, the moves the search may choose from must be the legal ones (they are filtered by is_check)
+    cg = [g for g in game_pool(rng, 40 if tier == "quick" else 600, 60) if any("castle" in t for t in g.tags)]
+    rcases = []
+    for g in cg:
+        for kk in range(1, len(g.moves) + 1):
+            if "castle" in g.tags[kk] or "castle" in g.tags[kk - 1]:
+                rcases.append("roots\t" + pos_cmd(g.start, g.moves[:kk]))
+    rcases += ["roots\tposition fen r3k2r/8/2P5/8/8/1Q6/8/R3K2R b KQkq - 0 1 moves e8c8 b3b7",
+               "roots\tposition fen r3k2r/8/8/8/8/8/6q1/R3K2R w KQkq - 0 1 moves e1c1 g2b2",
+               "roots\tposition fen r3k2r/8/8/8/8/8/8/R3K2R w KQkq - 0 1 moves e1g1 e8g8",
+               "roots\tposition fen r3k2r/8/8/8/8/8/8/R3K2R w KQkq - 0 1 moves e1c1 e8c8"]
+    rres = V.run_cases(rcases)
+    rmm, rsm = V.compare(rres)
+    report(o, "legal moves after position commands that castle (king caches of the text-move applier)", rres, rmm, rsm, nontrivial=lambda r: True)
     o.rule = "placements with one king each, legal or not: king square x attacker kind x attacker square (thorough: exhaustive 64*63*6) with an optional blocker on the segment, plus random placements; both colours judged; non-trivial = at least one side in check"
     o.extra["exhaustive_family"] = "king square x attacker kind x attacker square without blocker: 64*63*6 placements, enumerated completely in both tiers"
 
@@ -838,7 +871,49 @@ def sweep_expiry(o, tier, rng, want_c18=False, hunt=False):
     return out
 
 
-@prop("C07", "C07.v", THEOREMS["C07"])
+ZERO_ALLOWANCE_FENS = [
+    "4k3/8/8/7P/8/8/r7/R3K3 w - - 0 1",          # a capture is ordered before the quiet moves of earlier-scanned pieces
+    "4k3/8/8/8/8/8/r7/R3K3 b - - 0 1",
+    "r3k3/R7/8/8/8/8/7p/4K3 b - - 0 1",
+    "4k3/7P/8/8/8/8/r7/R3K3 w - - 0 1",          # promotion ordered first
+]
+
+
+def zero_allowance_fallback(o, tier, rng):
+    """no evaluation completes under a zero allowance: the binary must answer with the first move of the search's
+    ordering (what get_best_move hands back when the clock has expired at its first consultation)"""
+    import blackbox
+    pos = [(f, [], f) for f in ZERO_ALLOWANCE_FENS] + small_positions(rng, 12 if tier == "quick" else 120, max_pieces=10)[:12 if tier == "quick" else 120]
+    cases = ["search\t%s\t0" % pos_cmd(st_, mv_) for st_, mv_, _ in pos]
+    hout = V.run_sharded([V.HARNESS], cases)
+    firsts = []
+    for l in hout:
+        if l[:1] == "I":
+            d = parse_search(l[2:])
+            firsts.append(d["sends"][0].split("#")[0] if not d.get("bad") and d["sends"] else None)
+    ok = True
+    eng = blackbox.Engine(V.BINARY)
+    try:
+        eng.handshake()
+        for (st_, mv_, fen), want in zip(pos, firsts):
+            cmd = pos_cmd(st_, mv_)
+            stm = fen.split(" ")[1]
+            eng.send(cmd)
+            eng.send("go wtime 50 btime 50")
+            ls = eng.read_until(lambda l: l.startswith("bestmove"), 10)
+            o.evaluations += 1
+            got = ls[-1].split(" ")[1] if ls[-1] else None
+            if want is None or got != want:
+                ok = False
+                o.violation("input", "zero allowance: the binary answers %s, the first move of the search's ordering is %s: %s | go wtime 50 btime 50" % (got, want, cmd),
+                            {"case": cmd + " | go wtime 50 btime 50", "binary": got, "ordering_first": want})
+        hist_add(o, "zero-allowance answers compared with the search's ordering", len(pos))
+    finally:
+        eng.close()
+    return ok
+
+
+@prop("C07", "C07.v", THEOREMS["C07"], binary=True)
 def run_c07(o, tier, rng, prep):
     r = sweep_expiry(o, tier, rng)
     o.oblige("(a) every handed-back move is a legal root move, and one is always handed back", r["a"])
@@ -846,6 +921,8 @@ def run_c07(o, tier, rng, prep):
     o.oblige("(c) reports under expiry k are a prefix of those under k+1; fallback = first move of the ordering", r["c"])
     o.oblige("(d) repetition record restored on every exit path", r["d"])
     o.oblige("(e) no panic", r["e"])
+    okz = zero_allowance_fallback(o, tier, rng)
+    o.oblige("zero allowance on the binary: the move handed back is the first move of the search's own ordering", okz)
     o.rule = "%d small legal positions (<= 7 pieces, with their game history) x every expiry index k = 0..%d of the virtual clock (the k-th consultation reports expiry), run on the real get_best_move through the hooks and replayed node for node on the model with the logged sort orders; non-trivial = k falls strictly inside the search or at least one improvement was reported" % (r["npos"], r["kmax"])
     o.assumptions.append("ply < 100 (array bounds of pv/killer tables): maximal ply observed is far below; hypothesis of the model, not proved")
     o.assumptions.append("two-thread composition: after the join added by the F10 repair the I/O thread only consumes sends; FIFO delivery of mpsc assumed")
@@ -1058,8 +1135,38 @@ MATE_FENS = [
 ]
 
 
+EP_MATE_SESSIONS = [
+    ("position fen 8/4Np2/7p/R3P2k/8/5KP1/8/8 b - - 0 1 moves f7f5", "e5f6"),
+    ("position fen 8/8/5kp1/8/r3p2K/7P/4nP2/8 w - - 0 1 moves f2f4", "e4f3"),
+]
+
+
+def ep_mate_sessions(o):
+    """the only mate in one is an en-passant capture of a pawn that has just double-stepped in the move list"""
+    import blackbox
+    ok = True
+    for cmd, want in EP_MATE_SESSIONS:
+        eng = blackbox.Engine(V.BINARY)
+        try:
+            eng.handshake()
+            eng.send(cmd)
+            eng.send("go wtime 2000 btime 2000 movestogo 1")
+            ls = eng.read_until(lambda l: l.startswith("bestmove"), 10)
+            o.evaluations += 1
+            got = ls[-1].split(" ")[1] if ls[-1] else None
+            if got != want:
+                ok = False
+                o.violation("input", "mate in one by en passant not played: %s -> %s (mating move %s)" % (cmd, ls[-1], want), {"case": cmd, "lines": [x for x in ls if x][-4:]})
+        finally:
+            eng.close()
+    hist_add(o, "mate in one by en passant after a double step in the move list", len(EP_MATE_SESSIONS))
+    return ok
+
+
 @prop("C11", "C11.v", THEOREMS["C11"], binary=True)
 def run_c11(o, tier, rng, prep):
+    okep = ep_mate_sessions(o)
+    o.oblige("a mate in one that is an en-passant capture is played (position given with the double step in its move list)", okep)
     legal = gens.filter_legal(MATE_FENS)
     roots = [(f, [], f) for f, n, _ in legal if n > 0]
     roots += [(f, [], f) for f, n, _ in gens.filter_legal(UNDERPROMOTION_FENS) if n > 0 and sum(c.isalpha() for c in f.split(" ")[0]) <= 10]
@@ -1672,9 +1779,33 @@ def session_model_corr(o, tier, rng):
     o.oblige("every go-step search hands a move back (the polling loop ends iff something was sent)", oks)
 
 
+def deep_search_hunt(o):
+    """a proof or the correspondence broke and no failing input is known yet: let sparse endgames search for seconds
+    (iterations far beyond the usual depth; table bounds, ply arithmetic) and require the answer and readyok"""
+    import blackbox
+    for fen in ("7k/8/8/8/8/8/8/K7 w - - 0 1", "8/8/4k3/8/8/3PK3/8/8 w - - 0 1", "8/8/8/3k4/8/3K4/8/8 b - - 0 1"):
+        eng = blackbox.Engine(V.BINARY)
+        try:
+            eng.handshake()
+            eng.send("position fen " + fen)
+            eng.send("go wtime 150100 btime 150100")
+            ls = eng.read_until(lambda l: l.startswith("bestmove"), 10)
+            o.evaluations += 1
+            case = "position fen %s | go wtime 150100 btime 150100 (slice 4000 ms)" % fen
+            if ls[-1] is None or not eng.isready(3):
+                o.violation("input", "no bestmove/readyok after a 4 s search of a sparse endgame: %s" % case, {"case": case, "stderr": eng.stderr_text()[-400:]})
+                return False
+        finally:
+            eng.close()
+    hist_add(o, "hunt: 4 s searches of sparse endgames")
+    return True
+
+
 @prop("C08", "C08.v", THEOREMS["C08"], binary=True)
 def run_c08(o, tier, rng, prep):
     import blackbox
+    if any(v[0] in ("proof", "tie") for v in o.violations):
+        deep_search_hunt(o)
     n = 16 if tier == "quick" else 200
     pos = session_positions(rng, n, include_terminal=True)
     sessions = [(c, True, None) for c, _ in TERMINAL_SESSIONS]
@@ -1896,6 +2027,12 @@ def run_c16(o, tier, rng, prep):
                                                                      "go wtime 102 btime 102 movestogo 1", "go wtime 103 btime 103 movestogo 1"]))
                     else:
                         used.send(pos_cmd(t[0], t[1]))
+            # a search that completes every iteration (a forced mate is proven at once and the remaining depths
+            # cost nothing): whatever a *finished* search keeps must not reach the next request either
+            if i % 2 == 0:
+                reply(used, rng.choice(["position fen 6k1/pp3ppp/2p5/2bN2Q1/8/8/PPP2PPP/4R1K1 w - - 0 1",
+                                        "position fen 6k1/8/6K1/8/8/8/8/R7 w - - 0 1",
+                                        "position fen r7/8/8/8/8/6k1/8/6K1 b - - 0 1"]), "go wtime 20000 btime 20000", timeout=20)
             # a search of a millisecond or two right before the probe: anything it leaves behind (queued sends,
             # tables) must not reach the next request
             reply(used, rng.choice(["position startpos", "position startpos moves e2e4", "position fen r3k2r/p1ppqpb1/bn2pnp1/3PN3/1p2P3/2N2Q1p/PPPBBPPP/R3K2R w KQkq - 0 1"]),
@@ -1914,7 +2051,7 @@ def run_c16(o, tier, rng, prep):
                 ok = False
                 o.violation("input", "repeating the request changes the answer: %r then %r: %s" % (b[-1], c[-1], cmd), {"case": cmd})
             # timed allowance: improvements identical up to where the shorter run stopped
-            go = "go wtime 160 btime 160 movestogo 1"
+            go = "go wtime 160 btime 160 movestogo 1" if i % 2 else "go wtime 600 btime 600 movestogo 1"
             ia = improvements(reply(fresh, cmd, go))
             ib = improvements(reply(used, cmd, go))
             o.evaluations += 2
@@ -1929,6 +2066,31 @@ def run_c16(o, tier, rng, prep):
         finally:
             fresh.close()
             used.close()
+    # deterministic part: a search that ran through every depth (forced mate), then an ordinary position searched
+    # for a second: node counts and scores must be those of a fresh engine (ordering tables start empty)
+    okw = True
+    for warm in ("position fen 6k1/pp3ppp/2p5/2bN2Q1/8/8/PPP2PPP/4R1K1 w - - 0 1", "position fen r7/8/8/8/8/6k1/8/6K1 b - - 0 1"):
+        for probe in ("position startpos", "position fen r3k2r/p1ppqpb1/bn2pnp1/3PN3/1p2P3/2N2Q1p/PPPBBPPP/R3K2R w KQkq - 0 1"):
+            fresh = blackbox.Engine(V.BINARY)
+            used = blackbox.Engine(V.BINARY)
+            try:
+                fresh.handshake()
+                used.handshake()
+                reply(used, warm, "go wtime 20000 btime 20000", timeout=25)
+                go = "go wtime 1350 btime 1350 movestogo 1"
+                ia = improvements(reply(fresh, probe, go))
+                ib = improvements(reply(used, probe, go))
+                o.evaluations += 2
+                k = min(len(ia), len(ib))
+                if ia[:k] != ib[:k]:
+                    okw = False
+                    j = next(x for x in range(k) if ia[x] != ib[x])
+                    o.violation("input", "after a search that completed every depth (%s), the reports on %s differ at improvement %d: fresh %s, used %s" % (warm, probe, j, ia[j], ib[j]),
+                                {"case": "%s | go wtime 20000 btime 20000 | %s | %s" % (warm, probe, go), "fresh": ia, "used": ib})
+            finally:
+                fresh.close()
+                used.close()
+    o.oblige("after a search that completed every depth, a one-second search reports exactly what a fresh engine reports", okw)
     okr = repetition_reset_probes(o, tier, rng)
     o.oblige("a bare position command after a game with repetitions is answered like a fresh engine (repetition record reset)", okr)
     o.oblige("zero-allowance bestmove identical to a fresh engine's after arbitrary traffic; repeat gives the same (%d probes)" % len(probes), ok)
